@@ -2,6 +2,7 @@ package rcall
 
 import (
 	"github.com/modernizing/coca/pkg/domain/core_domain"
+	"strings"
 )
 
 type RCallGraph struct {
@@ -86,7 +87,7 @@ func (c RCallGraph) buildRCallChain(funcName string, methodMap map[string][]stri
 			if funcName == child {
 				continue
 			}
-			newCall := "\"" + child + "\" -> \"" + funcName + "\";\n"
+			newCall := "\"" + escapeStr(child) + "\" -> \"" + escapeStr(funcName) + "\";\n"
 			arrayResult = arrayResult + newCall
 		}
 
@@ -94,4 +95,8 @@ func (c RCallGraph) buildRCallChain(funcName string, methodMap map[string][]stri
 
 	}
 	return "\n"
+}
+
+func escapeStr(caller string) string {
+	return strings.ReplaceAll(caller, "\"", "\\\"")
 }
